@@ -130,9 +130,10 @@ def setTypeStr (t : PStr) : String := String.ofList (t.map fun c => Char.ofNat c
 def usesIntParser (intOnly : Bool) (curRc : Option Nat) : Bool :=
   intOnly || (match curRc with | some r => intCodes.contains r | none => false)
 
-/-- one converter applied to one value (`curRc`: the attribute's `representation_code` *before* the assignment,
-which `NumericAttribute` consults; `members`: the values of the enumeration) -/
-def applyConv (c : Conv) (hc : Bool) (curRc : Option Nat) (members : List PStr) (v : PyVal) : Except Err PyVal :=
+/-- one converter applied to one value (`curRc`: the outcome of reading the attribute's `representation_code`
+*before* the assignment, which only `NumericAttribute` consults, lazily; `members`: the values of the enumeration) -/
+def applyConv (c : Conv) (hc : Bool) (curRc : Except Err (Option Nat)) (members : List PStr) (v : PyVal) :
+    Except Err PyVal :=
   match c with
   | .ident => .ok v
   | .text => match v with | .str .. => .ok v | _ => .error .type
@@ -182,17 +183,22 @@ def applyConv (c : Conv) (hc : Bool) (curRc : Option Nat) (members : List PStr) 
                 else .error .value
     | _ => .error .type
   | .numeric intOnly =>
-    if usesIntParser intOnly curRc then intParser v else floatParser v
+    -- `self._int_only or self.representation_code in int_codes`: the property is read (and may raise) only when
+    -- a value actually reaches the converter of an attribute that is not int-only
+    if intOnly then intParser v else
+    match curRc with
+    | .error e => .error e
+    | .ok rc => if usesIntParser false rc then intParser v else floatParser v
   | .custom _ => .error .unmodelled
 
 mutual
 /-- the `wrapper` of `Attribute.converter`: recurse into sequences only for multidimensional attributes -/
-def wrapConv (c : Conv) (hc : Bool) (curRc : Option Nat) (members : List PStr) (multidim : Bool) :
+def wrapConv (c : Conv) (hc : Bool) (curRc : Except Err (Option Nat)) (members : List PStr) (multidim : Bool) :
     PyVal → Except Err PyVal
   | .list l => if multidim then (wrapConvs c hc curRc members multidim l).map .list
                else applyConv c hc curRc members (.list l)
   | v => applyConv c hc curRc members v
-def wrapConvs (c : Conv) (hc : Bool) (curRc : Option Nat) (members : List PStr) (multidim : Bool) :
+def wrapConvs (c : Conv) (hc : Bool) (curRc : Except Err (Option Nat)) (members : List PStr) (multidim : Bool) :
     List PyVal → Except Err (List PyVal)
   | [] => .ok []
   | v :: vs => do
@@ -207,7 +213,7 @@ def itemsOf : PyVal → List PyVal
   | x => [x]
 
 /-- `Attribute.convert_value` -/
-def convertValue (a : AttrSpec) (hc : Bool) (curRc : Option Nat) (members : List PStr) (v : PyVal) :
+def convertValue (a : AttrSpec) (hc : Bool) (curRc : Except Err (Option Nat)) (members : List PStr) (v : PyVal) :
     Except Err PyVal :=
   if a.multivalued then
     (wrapConvs a.conv hc curRc members a.multidim (itemsOf v)).map .list
@@ -303,14 +309,13 @@ def curRcFor (a : AttrSpec) (value : PyVal) : Except Err (Option Nat) :=
 
 /-- the `value` setter -/
 def setValue (a : AttrSpec) (hc : Bool) (members : List PStr) (st : AttrState) (v : PyVal) : Except Err AttrState := do
-  let cur ← curRcFor a st.value
-  let nv ← convertValue a hc cur members v
+  let nv ← convertValue a hc (curRcFor a st.value) members v
   pure { st with value := nv }
 
 /-- the `units` setter: refused for classes whose units are fixed; the unit enumeration is soft and allows None -/
 def setUnits (a : AttrSpec) (hc : Bool) (unitMembers : List PStr) (st : AttrState) (u : PyVal) : Except Err AttrState :=
   if !a.unitsSettable then .error .runtime else
-  match applyConv (.enum "Unit" true true) hc none unitMembers u with
+  match applyConv (.enum "Unit" true true) hc (.ok none) unitMembers u with
   | .error e => .error e
   | .ok _ => match u with
     | .none => .ok { st with units := none }
